@@ -29,8 +29,24 @@ func init() { register("C06", runC06) }
 
 var fdUnionRe = regexp.MustCompile(`\bus\b`)
 
-type A struct{ Id int64 }
+// A has two key fields: services that declare both are handed both; others find an A from its id alone
+type A struct {
+	Id  int64
+	Org int64
+}
 type B struct{ Id int64 }
+
+func fdOrg(id int64) int64 { return id%3 + 1 }
+
+type fdAKeyID struct{ Id int64 }
+type fdAKeyFull struct {
+	Id  int64
+	Org *int64
+}
+
+// fdMissingKey counts keys that reached a service without a field the service declares as key
+var fdMissingKey int64
+
 type fdU struct {
 	schemabuilder.Union
 	*A
@@ -71,7 +87,17 @@ var fdPool = []fdField{
 
 type fdPartition struct {
 	Services int                 `json:"services"`
-	Owners   map[string][]string `json:"owners"` // "Typ.field" -> services
+	Owners   map[string][]string `json:"owners"`            // "Typ.field" -> services
+	IDOnly   []string            `json:"id_only,omitempty"` // services that declare only `id` as the key of A (never an owner of A.a1, which reads the org it is handed)
+}
+
+func (p fdPartition) idOnly(svc string) bool {
+	for _, s := range p.IDOnly {
+		if s == svc {
+			return true
+		}
+	}
+	return false
 }
 
 type c06Case struct {
@@ -90,7 +116,7 @@ func (p fdPartition) owns(svc string, f fdField) bool {
 }
 
 // fdBuild builds one schema exposing the given fields (all = the monolith) over the store.
-func fdBuild(name string, st *fdStore, has func(fdField) bool, federated bool) *schemabuilder.Schema {
+func fdBuild(name string, st *fdStore, has func(fdField) bool, federated bool, idOnly bool) *schemabuilder.Schema {
 	var sb *schemabuilder.Schema
 	if federated {
 		sb = schemabuilder.NewSchemaWithName(name)
@@ -114,7 +140,7 @@ func fdBuild(name string, st *fdStore, has func(fdField) bool, federated bool) *
 		if id == 0 {
 			return nil
 		}
-		return &A{Id: id}
+		return &A{Id: id, Org: fdOrg(id)}
 	}
 	mkB := func(id int64) *B {
 		if id == 0 {
@@ -125,7 +151,29 @@ func fdBuild(name string, st *fdStore, has func(fdField) bool, federated bool) *
 	var oa, ob *schemabuilder.Object
 	if needA {
 		if federated {
-			oa = sb.Object("A", A{}, schemabuilder.FetchObjectFromKeys(func(args struct{ Keys []*A }) []*A { return args.Keys }))
+			if idOnly {
+				oa = sb.Object("A", A{}, schemabuilder.FetchObjectFromKeys(func(args struct{ Keys []fdAKeyID }) []*A {
+					out := make([]*A, 0, len(args.Keys))
+					for _, k := range args.Keys {
+						out = append(out, mkA(k.Id))
+					}
+					return out
+				}))
+			} else {
+				oa = sb.Object("A", A{}, schemabuilder.FetchObjectFromKeys(func(args struct{ Keys []fdAKeyFull }) []*A {
+					out := make([]*A, 0, len(args.Keys))
+					for _, k := range args.Keys {
+						a := &A{Id: k.Id}
+						if k.Org != nil {
+							a.Org = *k.Org
+						} else {
+							atomic.AddInt64(&fdMissingKey, 1)
+						}
+						out = append(out, a)
+					}
+					return out
+				}))
+			}
 		} else {
 			oa = sb.Object("A", A{})
 		}
@@ -176,9 +224,11 @@ func fdBuild(name string, st *fdStore, has func(fdField) bool, federated bool) *
 			q.FieldFunc("oneA", func() *A { return mkA(st.OneA) })
 		case "Query.num":
 			q.FieldFunc("num", func(args struct{ N int64 }) int64 { return args.N * 2 })
-		case "A.a0", "A.a1", "A.a2":
+		case "A.a0", "A.a2":
 			i := int(f.Name[1] - '0')
 			oa.FieldFunc(f.Name, func(a *A) int64 { return st.A[a.Id].V[i] })
+		case "A.a1": // depends on the second key field, as the service was handed it
+			oa.FieldFunc(f.Name, func(a *A) int64 { return st.A[a.Id].V[1] + 1000*a.Org })
 		case "A.aPlus":
 			oa.FieldFunc("aPlus", func(a *A, args struct{ N int64 }) int64 { return st.A[a.Id].V[0] + args.N })
 		case "A.b":
@@ -291,7 +341,7 @@ func fdSetupRefresh(cs c06Case, refreshSeconds int64) (*fdWorld, error) {
 	execs := map[string]federation.ExecutorClient{}
 	for k := 0; k < cs.Partition.Services; k++ {
 		name := fmt.Sprintf("s%d", k+1)
-		sb := fdBuild(name, cs.Store, func(f fdField) bool { return cs.Partition.owns(name, f) }, true)
+		sb := fdBuild(name, cs.Store, func(f fdField) bool { return cs.Partition.owns(name, f) }, true, cs.Partition.idOnly(name))
 		schema, err := sb.Build()
 		if err != nil {
 			return nil, fmt.Errorf("building %s: %v", name, err)
@@ -314,7 +364,7 @@ func fdSetupRefresh(cs c06Case, refreshSeconds int64) (*fdWorld, error) {
 		return nil, fmt.Errorf("gateway: %v", err)
 	}
 	w.gateway = e
-	mono, err := fdBuild("mono", cs.Store, func(fdField) bool { return true }, false).Build()
+	mono, err := fdBuild("mono", cs.Store, func(fdField) bool { return true }, false, false).Build()
 	if err != nil {
 		cancel()
 		return nil, err
@@ -388,7 +438,15 @@ func c06One(c *Ctx, m *Model, cs c06Case) {
 		b, _ := json.Marshal(want)
 		var wantJ interface{}
 		json.Unmarshal(b, &wantJ)
+		missingBefore := atomic.LoadInt64(&fdMissingKey)
 		got, reqs, gerr := w.federated(query)
+		if atomic.LoadInt64(&fdMissingKey) != missingBefore {
+			rep.Fail("impl_ne_spec", nil, one, map[string]interface{}{"what": "a sub-query handed a service the key of an object without a key field that service declares (objects cannot be matched back reliably)", "query": query, "requests": reqs})
+			if rep.ShouldStop() {
+				return
+			}
+			continue
+		}
 		if gerr != nil {
 			rep.Fail("impl_ne_spec", c06KF(gerr.Error(), query), one, map[string]interface{}{"what": "the gateway fails on a query the combined server answers", "query": query, "error": firstN(gerr.Error(), 400), "monolith": wantJ, "requests": reqs})
 			if rep.ShouldStop() {
@@ -643,6 +701,12 @@ func c06GenPartition(r *Rand) fdPartition {
 			sort.Strings(owners)
 		}
 		p.Owners[f.Typ+"."+f.Name] = owners
+	}
+	for k := 0; k < p.Services; k++ {
+		svc := fmt.Sprintf("s%d", k+1)
+		if !p.owns(svc, fdField{"A", "a1"}) && r.Chance(0.6) {
+			p.IDOnly = append(p.IDOnly, svc)
+		}
 	}
 	return p
 }
